@@ -59,6 +59,7 @@ class FakeServer:
         self._selected = None
         self.href_style = href_style
         self.fired = None
+        self.ignore_where = False   # fault: a lenient / clock-skewed server that returns documents outside the requested window
         self.extra = {}        # site -> {"docs", "pages", "plan", "selected"}: further result sets served concurrently
 
     def add_site(self, site, docs, pages):
@@ -69,7 +70,7 @@ class FakeServer:
     def _select(self, query):
         docs = list(self.docs)
         where = query.get("where")
-        if where:
+        if where and not self.ignore_where:
             for cond in where.split(" and "):
                 m = re.match(r'^(\w+) (>=|<=|>) "?(.*?)"?$', cond.strip())
                 if not m:
